@@ -378,6 +378,9 @@ class Engine:
         cond = recv.none
         if owner == "Metadata*":
             cond = Or(cond, Not(self.metadata_has_field(recv.v, fname)))
+        elif owner in self.DB_VALUE_CLASSES and recv.ty.cls == owner:
+            # E-DB-TYPES: a value annotated Edition / Reporter (frozen dataclasses built from reporters-db) has that class
+            self.trust("E-DB-TYPES: values in fields/sequences annotated Edition or Reporter are instances of that (frozen) dataclass")
         elif owner in self.repo.classes:
             cond = Or(cond, Not(self.class_in(recv.v, owner)))
         self.may_raise("AttributeError", cond, f"attr:.{fname}")
@@ -432,6 +435,8 @@ class Engine:
             kk = z3.Const(fresh_name("wk"), sv.v.arrs[1].sort().domain())
             st.assume(ForAllP([kk], And(z3.Select(sv.v.arrs[1], kk) >= 0, Not(z3.Select(sv.v.arrs[0], kk))),
                                 patterns=[z3.Select(sv.v.arrs[1], kk)]))
+
+    DB_VALUE_CLASSES = ("Edition", "Reporter")
 
     def assume_alive(self, st: State, sv: SV):
         if self.spec_mode or self.lambda_env:
@@ -536,10 +541,24 @@ class Engine:
         out.tag = ("slice", sv, lo, hi)
         return out
 
-    def clamp_slice(self, length, lo: Optional[SV], hi: Optional[SV]):
+    def implied(self, st: State, cond) -> bool:
+        """cheap entailment check used only to simplify terms (never to decide an obligation)"""
+        s = z3.Solver()
+        s.set("timeout", 250)
+        for a in self.axioms_light():
+            s.add(a)
+        for p in st.pc:
+            if not z3.is_quantifier(p):
+                s.add(p)
+        s.add(Not(cond))
+        return s.check() == z3.unsat
+
+    def clamp_slice(self, length, lo: Optional[SV], hi: Optional[SV], st: Optional[State] = None):
         def norm(x, dflt):
             if x is None or x.ty.kind == "none":
                 return dflt
+            if st is not None and self.implied(st, And(Not(x.none), x.v >= 0, x.v <= length)):
+                return x.v          # in range on this path: Python's clamping is the identity
             v = z3.If(x.v < 0, x.v + length, x.v)
             v = z3.If(v < 0, I(0), z3.If(v > length, length, v))
             if not is_false(x.none):
@@ -547,6 +566,8 @@ class Engine:
             return v
         a = norm(lo, I(0))
         b = norm(hi, length)
+        if st is not None and self.implied(st, a <= b):
+            return a, b
         b = z3.If(b < a, a, b)
         return a, b
 
@@ -747,10 +768,10 @@ class Engine:
             # contract expressions slice with in-range, ordered bounds only
             return SV(STR, z3.SubString(recv.v, lo.v, hi.v - lo.v))
         if recv.ty.kind == "str":
-            a, b = self.clamp_slice(z3.Length(recv.v), lo, hi)
+            a, b = self.clamp_slice(z3.Length(recv.v), lo, hi, st)
             return SV(STR, z3.SubString(recv.v, a, b - a))
         if recv.ty.kind == "seq":
-            a, b = self.clamp_slice(recv.v.len, lo, hi)
+            a, b = self.clamp_slice(recv.v.len, lo, hi, st)
             return self.seq_slice(st, recv, a, b)
         if recv.ty.kind == "tuple":
             if all(x is None or z3.is_int_value(z3.simplify(x.v)) for x in (lo, hi)):
@@ -1019,6 +1040,8 @@ class Engine:
             if item.ty.kind == "func" or item.ty.kind != cont.ty.elts[0].kind:
                 return FALSE if item.ty.kind != "func" else self.func_in_dict(st, item, cont)
             return z3.Select(cont.v.has, self.dict_key(st, cont, item))
+        if k == "set" and cont.tag and cont.tag[0] == "setofseq":
+            return self.contains(st, item, cont.tag[1])
         if k == "set":
             return z3.Select(cont.v.has, self.dict_key(st, SV(DICT(cont.ty.elts[0], INT), cont.v), item))
         raise Unsupported(f"in on {cont.ty}")
